@@ -178,6 +178,91 @@ def check_options(chk, prog):
                             'line of the usage text names a table entry with the same letter and arity', n, bad, floor=40)
 
 
+def verify_return_values(prog):
+    """what jwt_checker_verify can return, as a finite set of integers, or None if that cannot be read off: literal returns, and for
+    'return x->error' every literal ever stored into a field named error (flow-insensitive, over all library functions)"""
+    from props import tables as T
+    f = prog.func(T.VARIANT_UNIT['checker'], 'jwt_checker_verify')
+
+    def lit(e):
+        e = _strip(e)
+        if e.get('kind') == 'IntegerLiteral':
+            return int(e['value'])
+        if e.get('kind') == 'UnaryOperator' and e.get('opcode') == '-':
+            v = lit(e['inner'][0])
+            return None if v is None else -v
+        return None
+
+    def error_field(e):
+        """the record (by the spelling of the base's type) if e is <base>->error / <base>.error"""
+        e = _strip(e)
+        if e.get('kind') == 'MemberExpr' and e.get('name') == 'error':
+            t = _strip(e['inner'][0]).get('type', {})
+            t = t.get('desugaredQualType') or t.get('qualType', '')
+            return t.replace('const ', '').replace('struct ', '').replace('*', '').strip()
+        return None
+    lits, copies, unknown = {}, {}, set()
+    for u in prog.units.values():
+        if u.name.startswith('tools/'):
+            continue
+        for fn in u.funcs.values():
+            for x in walk(fn):
+                if x.get('kind') == 'BinaryOperator' and x.get('opcode') == '=':
+                    g = error_field(x['inner'][0])
+                    if g is None:
+                        continue
+                    v = lit(x['inner'][1])
+                    src = error_field(x['inner'][1])
+                    if v is not None:
+                        lits.setdefault(g, set()).add(v)
+                    elif src is not None:
+                        copies.setdefault(g, set()).add(src)
+                    else:
+                        unknown.add(g)
+                elif x.get('kind') in ('CompoundAssignOperator', 'UnaryOperator') and x.get('opcode') in ('+=', '-=', '|=', '++', '--'):
+                    g = error_field(x['inner'][0])
+                    if g is not None:
+                        unknown.add(g)
+
+    def field_values(g):
+        seen, work, vals = set(), [g], {0}        # objects start zeroed
+        while work:
+            k = work.pop()
+            if k in seen:
+                continue
+            seen.add(k)
+            if k in unknown:
+                return None
+            vals |= lits.get(k, set())
+            work += list(copies.get(k, ()))
+        return vals
+    out = set()
+
+    def ret(e):
+        e = _strip(e)
+        v = lit(e)
+        if v is not None:
+            out.add(v)
+            return True
+        g = error_field(e)
+        if g is not None:
+            fv = field_values(g)
+            if fv is None:
+                return False
+            out.update(fv)
+            return True
+        if e.get('kind') == 'ConditionalOperator':
+            return ret(e['inner'][1]) and ret(e['inner'][2])
+        return False
+    n = 0
+    for x in walk(f):
+        if x.get('kind') == 'ReturnStmt' and x.get('inner'):
+            n += 1
+            if not ret(x['inner'][0]):
+                return None
+    return out if n else None
+
+
 def check_exit_status(chk, prog, model):
     unit = 'tools/jwt-verify.c'
     u = prog.unit(unit)
@@ -267,24 +352,36 @@ def check_exit_status(chk, prog, model):
                                                                              '"+= process_one(...)" at line %s' % (cname, a.get('_l')), line=a.get('_l')))
     if not any(a.get('opcode') == '+=' for a in assigns):
         raise AnalysisBroken('jwt-verify: failure counter is never incremented')
-    # (c) process_one returns 1 iff jwt_checker_verify failed
-    def h_verify(it, st, args, node):
-        s1 = st.clone()
-        s1.ts['v'] = 0
-        st.ts['v'] = 1
-        return [(s1, Int(0)), (st, Term(('vfail',)))]
-    it = Interp(prog, unit, model=model, hooks={'jwt_checker_verify': h_verify, 'print_token_trunc': lambda it, st, a, nd: [(st, Int(0))],
-                                               'jwt_checker_error_msg': lambda it, st, a, nd: [(st, Str('m'))]})
-    st = State()
+    # (c) process_one returns 0 when verification succeeded and a small positive number when it failed.  What jwt_checker_verify can
+    # return is taken from the library (composition): if that is a known finite set, process_one is evaluated on each member
+    rset = verify_return_values(prog)
+    chk.coverage['jwt_checker_verify_returns'] = sorted(rset) if rset is not None else 'not a finite set of literals: any non-zero value assumed'
     vf = ('vfail',)
-    st.cons[vf] = (('!=', 0),)
-    res = it.run('process_one', [Term(('checker',), ptr=True), Term(('alg',)), Term(('tok',), ptr=True), Term(('quiet',))], st)
-    for s, rv in res:
-        n += 1
-        want = s.ts.get('v')
-        if not (isinstance(rv, Int) and rv.v == want):
-            bad += 1
-            chk.add(Finding('C20.exit-status', unit, 'process_one', 'result', 'process_one returns %r when verification %s' % (rv, 'failed' if want else 'succeeded')))
+
+    def run_one(rv_in):
+        def h_verify(it, st, args, node):
+            if rv_in is None:
+                s1 = st.clone()
+                s1.ts['v'] = 0
+                st.ts['v'] = 1
+                return [(s1, Int(0)), (st, Term(vf))]
+            st.ts['v'] = 0 if rv_in == 0 else 1
+            return [(st, Int(rv_in))]
+        it = Interp(prog, unit, model=model, hooks={'jwt_checker_verify': h_verify, 'print_token_trunc': lambda it, st, a, nd: [(st, Int(0))],
+                                                   'jwt_checker_error_msg': lambda it, st, a, nd: [(st, Str('m'))]})
+        st = State()
+        st.cons[vf] = (('!=', 0),)
+        return it.run('process_one', [Term(('checker',), ptr=True), Term(('alg',)), Term(('tok',), ptr=True), Term(('quiet',))], st)
+    for rv_in in ([None] if rset is None else sorted(rset)):
+        for s, rv in run_one(rv_in):
+            n += 1
+            want = s.ts.get('v')
+            good = isinstance(rv, Int) and ((rv.v == 0) if not want else (1 <= rv.v <= 255))
+            if not good:
+                bad += 1
+                chk.add(Finding('C20.exit-status', unit, 'process_one', 'result',
+                                'process_one returns %r when verification %s%s: the failure count is no longer the number of failed tokens' % (
+                                    rv, 'failed' if want else 'succeeded', '' if rv_in is None else ' (jwt_checker_verify returned %d)' % rv_in)))
     chk.rule('C20.exit-status', 'jwt-verify: status 0 iff the failure counter is 0, never wrapping; counter = number of failed process_one calls',
              n, bad, floor=20)
 
